@@ -81,7 +81,7 @@ ViewStep(s, ln) ==
                                      ELSE IF ln.vp # r.v THEN "ViewValue" ELSE IF ~RereadOK(ln) THEN "RereadKeepsHeader" ELSE "ok")
               ELSE IF r.exc # "" THEN (IF now # prev THEN "HeaderEqualsView" ELSE IF ln.vp # vw.v THEN "ViewValue" ELSE "ok")
               ELSE IF r.v # vw.v /\ now # wr THEN "HeaderEqualsView"
-              ELSE IF r.v = vw.v /\ now # wr /\ now # prev THEN "HeaderEqualsView"
+              ELSE IF r.v = vw.v /\ now # wr /\ (now # prev \/ Reasserts(k, ln.op, ln.a, r.v)) THEN "HeaderEqualsView"
               ELSE IF ln.vp # r.v THEN "ViewValue"
               ELSE IF ~Empty(k, r.v) /\ k # "mtp" /\ ln.vt # Some(Ser(k, r.v, <<>>)) THEN "ViewText"
               ELSE IF now = wr /\ RoundTrips(k, r.v) /\ ln.rp # NF(k, r.v) THEN "RereadEqualsView"
